@@ -1,4 +1,5 @@
 """Shared pipeline: verdicts from the real derive back end, reference tables, MIR programs, worker pool."""
+import hashlib
 import json
 import multiprocessing as mp
 import os
@@ -101,14 +102,20 @@ def build_native(name, defs, cfg, profile='dev', trace=False, cblog=False):
     cdir = os.path.join(build.WORK, 'native', f'{name}-{build.cfg_name(feats, profile)}' + ('-trace' if trace else '') + ('-cblog' if cblog else ''))
     os.makedirs(os.path.join(cdir, 'src', 'bin'), exist_ok=True)
     fl = ', '.join(f'"{f}"' for f in feats)
+    # package and binary are named after the crate directory: several crate directories share one target directory per
+    # configuration (to share the builds of logos and its dependencies), and cargo keys fingerprints and the uplifted
+    # binary by *package name* for a workspace-root path package -- two directories with one name would be taken for
+    # the same package, and the older directory's sources for "fresh", leaving the other one's binary in place
+    binname = f'replay-{name}'
     build.write_if_changed(os.path.join(cdir, 'Cargo.toml'), f'''[package]
-name = "corpus"
+name = "corpus-{name}"
 version = "0.0.0"
 edition = "2021"
 [lib]
+name = "corpus"
 path = "src/lib.rs"
 [[bin]]
-name = "replay"
+name = "{binname}"
 path = "src/bin/replay.rs"
 [dependencies]
 logos = {{ path = "{build.REPO}", features = [{fl}] }}
@@ -121,16 +128,27 @@ overflow-checks = false
     if os.path.exists(lock) and not os.path.exists(os.path.join(cdir, 'Cargo.lock')):
         with open(lock) as f:
             build.write_if_changed(os.path.join(cdir, 'Cargo.lock'), f.read())
-    build.write_if_changed(os.path.join(cdir, 'src', 'lib.rs'), corpus.render_lib(defs))
-    build.write_if_changed(os.path.join(cdir, 'src', 'bin', 'replay.rs'), corpus.render_replay_main(defs))
+    lib_src = corpus.render_lib(defs)
+    ident = hashlib.sha256((lib_src + '\0' + ','.join(d.id for d in defs)).encode()).hexdigest()[:16]
+    build.write_if_changed(os.path.join(cdir, 'src', 'lib.rs'), lib_src)
+    build.write_if_changed(os.path.join(cdir, 'src', 'bin', 'replay.rs'), corpus.render_replay_main(defs, ident))
     tname = build.cfg_name(feats, profile) + ('-trace' if trace else '') + ('-cblog' if cblog else '')
     env = dict(build.ENV_BASE, CARGO_TARGET_DIR=os.path.join(build.WORK, 'target-native', tname),
                RUSTFLAGS='-Awarnings' + (' --cfg logos_verif' if trace else '') + (' --cfg cb_log' if cblog else ''))
-    cmd = ['cargo', 'build', '--offline', '--bin', 'replay'] + (['--release'] if profile == 'release' else [])
+    cmd = ['cargo', 'build', '--offline', '--bin', binname] + (['--release'] if profile == 'release' else [])
     rc, log = build.run(cmd, cwd=cdir, env=env)
     if rc != 0:
         raise build.BuildError(f'native build failed [{cfg} {profile}]:\n{log[-4000:]}')
-    return os.path.join(build.WORK, 'target-native', tname, 'release' if profile == 'release' else 'debug', 'replay')
+    binary = os.path.join(build.WORK, 'target-native', tname, 'release' if profile == 'release' else 'debug', binname)
+    # the binary must be the one built from the sources just written (never a stale artefact cargo took for fresh)
+    try:
+        got = subprocess.run([binary, '--ident'], capture_output=True, text=True, timeout=20).stdout.strip()
+    except (OSError, subprocess.TimeoutExpired) as e:
+        got = f'<{e}>'
+    if got != f'IDENT {ident}':
+        raise build.BuildError(f'native build [{name} {cfg} {profile}] is not built from the sources in {cdir}: '
+                               f'expected IDENT {ident}, binary says {got!r}')
+    return binary
 
 
 def native_run(binary, def_id, data: bytes, partial=False, start=0, timeout=20, valgrind=False):
